@@ -23,7 +23,10 @@ def problem(r, nd):
     sh = G.shape(r, nd, 1, 6 if nd == 2 else 4)
     d = G.spacing(r, nd, max_aspect=2.0)
     v, kind = G.medium(r, sh)
-    kind_o = str(r.choice(["dyadic", "decimal", "large", "negative"]))
+    kind_o = str(r.choice(["dyadic", "decimal", "large", "negative", "cells"]))
+    cells = kind_o == "cells"       # an origin of a few cells: absolute and grid-relative cell indices differ by a few
+    if cells:
+        kind_o = "dyadic"
     # a translation that is not exactly representable moves the source by a few ulps of the origin: sources on
     # grid lines / boundaries would then change class (that is C03's subject), so use interior sources there
     if kind_o == "dyadic":
@@ -32,7 +35,9 @@ def problem(r, nd):
     src, cls = G.source_grid_rel(r, sh, d, cls=None if kind_o == "dyadic" else "interior")
     if kind_o == "dyadic":
         src = tuple(float(np.round(x * 1024) / 1024) for x in src)
-    if kind_o == "dyadic":
+    if cells:
+        o = tuple(float(int(r.choice([1, 2, 3, -1, -2])) * d[a]) for a in range(nd))
+    elif kind_o == "dyadic":
         o = tuple(float(x) for x in r.choice([-8.0, 4.0, 0.5, -0.25, 16.0, 1024.0], nd))
     elif kind_o == "decimal":
         o = tuple(float(x) for x in r.choice([0.1, -0.3, 12.7, -100.1, 3.3], nd))
@@ -42,9 +47,10 @@ def problem(r, nd):
         o = tuple(-float(x) for x in r.uniform(1, 50, nd))
     ext = [sh[a] * d[a] for a in range(nd)]
     pts = [[float(r.uniform(-0.05, 1.05)) * ext[a] for a in range(nd)] for _ in range(6)]
-    rp = [[float(r.uniform(0, 1)) * ext[a] for a in range(nd)] for _ in range(3)]
-    return {"grid": v, "gridsize": d, "origin": o, "src": src, "points": pts, "ray_points": rp, "ext": ext,
-            "meta": {"shape": sh, "d": d, "origin": o, "origin_kind": kind_o, "medium": kind, "src": src, "cls": cls}}
+    rp = [[float(r.uniform(0, 1)) * ext[a] for a in range(nd)] for _ in range(6 if cells else 3)]
+    return {"grid": v, "gridsize": d, "origin": o, "src": src, "points": pts, "ray_points": rp, "ext": ext, "cells": cells,
+            "meta": {"shape": sh, "d": d, "origin": o, "origin_kind": "cells" if cells else kind_o, "medium": kind, "src": src,
+                     "cls": cls}}
 
 
 def corpus_case():
@@ -117,12 +123,12 @@ def run(tier):
             o = p["origin"]
             many = bool(r.integers(0, 2)) and not p.get("corpus")
             p["many"] = many
-            extra = [[float(np.round(x * 1024) / 1024) if p["meta"]["origin_kind"] == "dyadic" else x for x in
+            extra = [[float(np.round(x * 1024) / 1024) if p["meta"]["origin_kind"] in ("dyadic", "cells") else x for x in
                       G.source_grid_rel(r, p["meta"]["shape"], p["gridsize"], cls="interior")[0]] for _ in range(2)]
             base_src = [list(p["src"])] + (extra if many else [])
             p["base_src"] = base_src
             sh_src = [[s[a] + o[a] for a in range(nd)] for s in base_src]
-            hg = bool(r.integers(0, 2)) and not p.get("corpus") and not p.get("force_free")
+            hg = (bool(r.integers(0, 2)) or bool(p.get("cells"))) and not p.get("corpus") and not p.get("force_free")
             kw = {"honor_grid": hg, "max_step": 400}
             for org, srcs, pts, rps in ((o, sh_src, [[x[a] + o[a] for a in range(nd)] for x in p["points"]],
                                          [[x[a] + o[a] for a in range(nd)] for x in p["ray_points"]]),
@@ -186,7 +192,7 @@ def run(tier):
                     continue
                 for xa, xb in zip(ra, rb):
                     if xa.shape != xb.shape:
-                        if abs(len(xa) - len(xb)) > 2:
+                        if rep or abs(len(xa) - len(xb)) > 2:      # an exactly representable translation changes nothing
                             ck.violation("ray changes shape under translation", dict(pl, lens=[len(xa), len(xb)]))
                         continue
                     if not np.allclose(xa - o, xb, rtol=0, atol=1e-7 * max(size, 1.0)):
